@@ -199,12 +199,13 @@ def load_known():
     return json.load(open(path)).get("findings", [])
 
 
-def matches_known(prop, request, known):
+def matches_known(prop, request, known, verdict=""):
     for k in known:
         if k.get("status") != "known" or prop not in k.get("properties", []):
             continue
         pat = k.get("match_request_regex")
-        if pat and re.search(pat, request):
+        vpat = k.get("match_verdict_regex")
+        if pat and re.search(pat, request) and (not vpat or re.search(vpat, verdict)):
             return k
     return None
 
@@ -321,13 +322,13 @@ def main():
                     entry["context"] = slot_defs.get(request.split(" ")[1], [])
                 spec_fail = verdict.startswith("FAILS") or verdict == "NO-VERDICT" or model in ("BAD-OP", "MISS")
                 if verdict.startswith("FAILS"):
-                    kf = matches_known(prop, request, known)
+                    kf = matches_known(prop, request, known, verdict)
                     if kf:
                         cases["known"].append((kf["id"], entry))
                     else:
                         cases["impl_vs_spec"].append(entry)
                 if model != impl:
-                    kf = matches_known(prop, request, known)
+                    kf = matches_known(prop, request, known, verdict)
                     if kf and verdict.startswith("FAILS"):
                         pass
                     else:
